@@ -440,6 +440,7 @@ class Engine:
                                     patterns=[z3.MultiPattern(idx(x), idx(y))]))
             ety = v.ty.args[0]
             l = VList(n, arr, T.list(ety), False, True, arr_mem)
+            l.idx_fn = idx  # position of a member in this enumeration (for loop invariants over sets)
             cache = dict(cache)
             cache[key] = l
             st.ghost["enumcache"] = cache
@@ -1360,32 +1361,86 @@ class Engine:
 
     def comp_body(self, g, elt_nodes, elem: V, st: State, node):
         """evaluate filters and element expressions for one symbolic/concrete element on a scratch state.
-        Returns (cond z3/bool, [values]).  Comprehension bodies must be pure and non-forking."""
+        Returns (cond, [values], extra_facts, scratch_state).  Forks are merged into if-then-else values; raising
+        branches become the obligation `no exception inside the comprehension` (self._comp_raise collects them)."""
         sc = st.fork()
         sc.pending = []
         r = self.assign(g.target, elem, sc, None)
         if len(r) != 1 or r[0][1] is not None:
             raise Unsupported("comprehension target", node)
         sc = r[0][0]
-        cond = True
         npc = len(sc.pc)
+        branches = [(sc, True, [])]  # (state, filter condition, values so far)
+        raised = []
         for c in g.ifs:
-            rs = self.ev(c, sc)
-            if len(rs) != 1 or isinstance(rs[0][1], Raised):
-                raise Unsupported("forking/raising comprehension filter", node)
-            sc, v = rs[0]
-            t = self.truth(v, sc, node)
-            cond = t if cond is True else (cond if t is True else z3.And(self.zbool(cond), self.zbool(t)))
-        vals = []
+            nxt = []
+            for (b, cond, vals) in branches:
+                for (b2, v) in self.ev(c, b):
+                    if isinstance(v, Raised):
+                        raised.append(b2)
+                        continue
+                    t = self.truth(v, b2, node)
+                    nc = t if cond is True else (cond if t is True else z3.And(self.zbool(cond), self.zbool(t)))
+                    nxt.append((b2, nc, vals))
+            branches = nxt
         for en in elt_nodes:
-            rs = self.ev(en, sc)
-            rs = [r for r in rs if not isinstance(r[1], Raised)] if len(rs) > 1 else rs
-            if len(rs) != 1 or isinstance(rs[0][1], Raised):
-                raise Unsupported("forking/raising comprehension element", node)
-            sc, v = rs[0]
-            vals.append(v)
-        extra = sc.pc[npc:]
-        return cond, vals, extra, sc
+            nxt = []
+            for (b, cond, vals) in branches:
+                for (b2, v) in self.ev(en, b):
+                    if isinstance(v, Raised):
+                        raised.append((b2, cond))
+                        continue
+                    nxt.append((b2, cond, vals + [v]))
+            branches = nxt
+        if any(b.pending for (b, _, _) in branches):
+            raise Unsupported("call with a precondition inside a comprehension", node)
+        self._comp_raise = []
+        for rb in raised:
+            if isinstance(rb, tuple):
+                b, cond = rb
+                self._comp_raise.append(z3.And(self.zbool(cond), *b.pc[npc:]) if b.pc[npc:] else self.zbool(cond))
+            else:
+                self._comp_raise.append(z3.And(*rb.pc[npc:]) if rb.pc[npc:] else z3.BoolVal(True))
+        if not branches:
+            raise Unsupported("comprehension element always raises", node)
+        if len(branches) == 1:
+            b, cond, vals = branches[0]
+            return cond, vals, b.pc[npc:], b
+        # merge forks: value = nested if over the branch constraints
+        paths = [z3.And(*b.pc[npc:]) if b.pc[npc:] else z3.BoolVal(True) for (b, _, _) in branches]
+        nvals = len(branches[0][2])
+        merged = []
+        for j in range(nvals):
+            vs = [vals[j] for (_, _, vals) in branches]
+            zs = []
+            for v in vs:
+                if isinstance(v, VStr):
+                    v = VScalar(self.S.str_const(v.s), T.atom)
+                if isinstance(v, VNone):
+                    v = VScalar(self.S.NONE, T.oatom)
+                if not isinstance(v, VScalar):
+                    raise Unsupported("forking comprehension element of type %s" % type(v).__name__, node)
+                zs.append(v)
+            acc = zs[-1].z
+            for pth, v in reversed(list(zip(paths[:-1], zs[:-1]))):
+                acc = z3.If(pth, v.z, acc)
+            ty = zs[0].ty
+            if any(z.ty.kind == "oatom" for z in zs):
+                ty = T.oatom
+            merged.append(VScalar(acc, ty))
+        conds = [z3.And(pth, self.zbool(c)) for pth, (_, c, _) in zip(paths, branches)]
+        cond = z3.Or(*conds)
+        if all(c is True for (_, c, _) in branches):
+            cond = True
+        extra = [z3.Or(*paths)]
+        return cond, merged, extra, branches[0][0]
+
+    def comp_obligations(self, st: State, node, quantify):
+        """raising branches recorded by the last comp_body call become an obligation; quantify(f) closes it
+        over the iteration variable."""
+        for rc in getattr(self, "_comp_raise", []):
+            st.oblige("no-exception-in-comprehension@line%d" % node.lineno, quantify(z3.Not(rc)), node.lineno)
+        self._comp_raise = []
 
     def ex_ListComp(self, e, st):
         out = []
@@ -1397,6 +1452,7 @@ class Engine:
                 items = []
                 for it in elem_at:
                     cond, vals, extra, _ = self.comp_body(g, [e.elt], it, s1, e)
+                    self.comp_obligations(s1, e, lambda f: f)
                     for f in extra:
                         s1.assume(f)
                     if cond is True or (not isinstance(cond, bool) and z3.is_true(z3.simplify(cond))):
@@ -1417,6 +1473,7 @@ class Engine:
         Encoded with a monotone index embedding src: [0,m) -> [0,n); the set view is kept alongside."""
         i = z3.Int(fresh_name("ci"))
         cond, vals, extra, _ = self.comp_body(g, [e.elt], elem_at(i), st, e)
+        self.comp_obligations(st, e, lambda f: z3.ForAll([i], z3.Implies(z3.And(0 <= i, i < n), f)))
         v = vals[0]
         if isinstance(v, VStr):
             v = VScalar(self.S.str_const(v.s), T.atom)
@@ -1491,8 +1548,63 @@ class Engine:
             out.append((s1, self.symbolic_dictcomp(e, g, s1, itv)))
         return out
 
+    def alloc_dictcomp(self, e, g, st: State, itv):
+        """{k: Cls(args(k)) for k in S}: one fresh object per key, all allocated `in parallel` (DESIGN §3.2 heap).
+        Needs an __init__ contract exposing init_fields (the same description its own verification uses)."""
+        if not (isinstance(e.value, ast.Call) and isinstance(e.value.func, ast.Name) and e.value.func.id in self.classes):
+            return None
+        cls = e.value.func.id
+        c = self.registry.contracts.get("%s.__init__" % cls)
+        if c is None or getattr(c, "init_fields", None) is None or g.ifs or e.value.keywords:
+            return None
+        if not (isinstance(e.key, ast.Name) and isinstance(g.target, ast.Name) and e.key.id == g.target.id):
+            return None
+        sv = self.set_of(itv, st, e)
+        ks = sv.arr.sort().domain()
+        x = z3.Const(fresh_name("ak"), ks)
+        sc = st.fork()
+        sc.pending = []
+        sc.env[g.target.id] = VScalar(x, sv.ty.args[0])
+        rs = self.ev_list(e.value.args, sc)
+        if len(rs) != 1 or any(isinstance(v, Raised) for v in rs[0][1]):
+            return None
+        args = rs[0][1]
+        from .contracts import signature, load_function, Ctx
+        fn = c.node or load_function(c.file, c.qualname)
+        pos = [a.arg for a in fn.args.args][1:]
+        argmap = {n: self.coerce(v, c.params[n], sc, e) for n, v in zip(pos, args)}
+        F = z3.Function(fresh_name("new_%s_of" % cls), ks, z3.IntSort())
+        Finv = z3.Function(fresh_name("key_of_%s" % cls), z3.IntSort(), ks)
+        al = st.ghost.setdefault("alloc", z3.Const("alloc0", z3.ArraySort(z3.IntSort(), z3.BoolSort())))
+        tag = self.S.func("class_tag", z3.IntSort(), z3.IntSort())
+        st.assume(z3.ForAll([x], z3.Implies(sv.arr[x], z3.And(F(x) >= 0, z3.Not(al[F(x)]), tag(F(x)) == self.classes[cls].tag, Finv(F(x)) == x)), patterns=[F(x)]))
+        fields = c.init_fields(Ctx(self, sc, dict(argmap, self=VScalar(F(x), T.obj(cls))), st.heap_snapshot()))
+        o = z3.Int(fresh_name("o"))
+        for fname, fval in fields.items():
+            hf = self.heap_field(st, cls, fname)
+            fval = self.coerce(fval, hf.ty, sc, e)
+            from .values import flatten as _flat
+            newparts = []
+            for old, part in zip(hf.parts, _flat(fval)):
+                h2 = z3.Const(fresh_name("H_%s_%s_pa" % (cls, fname)), old.sort())
+                st.assume(z3.ForAll([x], z3.Implies(sv.arr[x], h2[F(x)] == part), patterns=[h2[F(x)]]))
+                st.assume(z3.ForAll([o], z3.Implies(al[o], h2[o] == old[o]), patterns=[h2[o]]))
+                newparts.append(h2)
+            hf.parts = newparts
+        al2 = z3.Const(fresh_name("alloc"), al.sort())
+        st.assume(z3.ForAll([o], z3.Implies(al[o], al2[o]), patterns=[al[o]]))
+        st.assume(z3.ForAll([x], z3.Implies(sv.arr[x], al2[F(x)]), patterns=[F(x)]))
+        st.ghost["alloc"] = al2
+        val = z3.Const(fresh_name("dc_val"), z3.ArraySort(ks, z3.IntSort()))
+        st.assume(z3.ForAll([x], z3.Implies(sv.arr[x], val[x] == F(x)), patterns=[val[x]]))
+        self.registry.note("parallel allocation in a comprehension: one fresh %s per key, distinct keys give distinct objects" % cls)
+        return VDict(sv.arr, val, T.dict(sv.ty.args[0], T.obj(cls)))
+
     def symbolic_dictcomp(self, e, g, st: State, itv) -> VDict:
         """{k(x): v(x) for x in it if p(x)} where k(x) is the iteration element itself (or the key of items())."""
+        pa = self.alloc_dictcomp(e, g, st, itv)
+        if pa is not None:
+            return pa
         src_dict = None
         if isinstance(itv, VPy) and isinstance(itv.obj, tuple) and itv.obj[0] == "items":
             src_dict = itv.obj[1]
@@ -1507,6 +1619,7 @@ class Engine:
             x = z3.Const(fresh_name("dk"), ks)
             elem = VScalar(x, sv.ty.args[0])
         cond, vals, extra, _ = self.comp_body(g, [e.key, e.value], elem, st, e)
+        self.comp_obligations(st, e, lambda f: z3.ForAll([x], z3.Implies(keyset[x], f)))
         kv, vv = vals
         if isinstance(vv, VNone):
             vv = VScalar(self.S.NONE, T.oatom)
